@@ -2018,7 +2018,8 @@ def c02_cases(tier, seed):
                 cmds.append(Cmd([rng.choice(["Backspace", "C-k"])], "edit"))
         cmds += [Cmd(["F12"], "noop"), Cmd(["Enter"], "enter")]
         chunks = [b"".join(p_tty.key_bytes(k) for k in cmd.keys) for cmd in cmds]
-        c = script_case(cmds, mode=["emacs", "vi"][i % 2], cols=cols0, prompt=prompt, chunks=chunks, timeout=0 if i % 2 else "none")
+        # (emacs mode: C-l is clear-screen there)
+        c = script_case(cmds, mode="emacs", cols=cols0, prompt=prompt, chunks=chunks, timeout=rng.choice(["none", 0]))
         c.meta.update({"events": {at: [("winch", newc)]}, "resize_at": {at: newc}})
         cases.append(c)
     # a validator message shown while the cursor is INSIDE the line (Enter there), text + message wrapping around a narrow
@@ -2175,7 +2176,7 @@ def eval_c02(res, cases_out, stream, width):
             # the read returned: the cursor is after the last character so that what the application prints starts on a fresh row
             b = out.find(b"\x1b[?2004l", base)
             ended = t.steps[-1][2] if t.steps else (None,)
-            if b > 0 and (ended[0] == "line" or (ended[0] == "end" and ended[1] == "int")):
+            if b > 0 and not unknown and (ended[0] == "line" or (ended[0] == "end" and ended[1] == "int")):
                 try:
                     scr.feed(decoded(out[fed:]))
                 except UnicodeDecodeError:
